@@ -2248,6 +2248,23 @@ Section SigConv.
       + apply wsig_append; [apply wsig_append; [exact Wt|apply wsig_text]|apply wsig_text].
   Qed.
 
+  Lemma formatable_no_spread a :
+    is_formatable a = true ->
+    existsb (fun b => kind_eqb (bk b) KSpread) (filter (fun b => is_arg (bt b)) (take_until_rparen (skip_until KLeftParen (bkids a)))) = false.
+  Proof.
+    unfold is_formatable. intros H. apply andb_prop in H. destruct H as [_ H].
+    set (l := filter (fun b => is_arg (bt b)) (take_until_rparen (skip_until KLeftParen (bkids a)))) in *. clearbody l.
+    match type of H with (let '(ok, seen) := fold_left ?f l ?st in _) = true => set (step := f) in * end.
+    assert (G : forall l ok seen, fst (fold_left step l (ok, seen)) = true ->
+                ok = true /\ existsb (fun b => kind_eqb (bk b) KSpread) l = false).
+    { induction l0 as [|x r IH]; intros ok seen Hf; cbn [fold_left existsb] in *; [auto|].
+      unfold step at 2 in Hf. cbv beta iota in Hf. destruct (bk x) eqn:Ek;
+        try (destruct (IH _ _ Hf) as [Hok Hr]; apply andb_prop in Hok; destruct Hok as [Hok _]; split; [exact Hok|rewrite Hr; reflexivity]; fail).
+      destruct (IH _ _ Hf) as [Hok _]. discriminate. }
+    destruct (fold_left step l (true, false)) as [ok seen] eqn:Ef. apply andb_prop in H. destruct H as [Hok _]. subst ok.
+    apply (G l true false). rewrite Ef. reflexivity.
+  Qed.
+
   Lemma cons_convert_func_call_any self c :
     cg self -> kind_of (bt self) = KFuncCall ->
     post (convert_func_call swidth cfg self c) (good_doc (tsig (bt self))).
@@ -2278,9 +2295,13 @@ Section SigConv.
           destruct (is_formatable a) eqn:Efm; [|exact Hal].
           destruct (get_table_columns a); [|exact Hal].
           (* formatable: no comment among the arguments *)
-          unfold is_formatable in Efm. apply andb_prop in Efm. destruct Efm as [Hnc _].
+          pose proof Efm as Efm'. unfold is_formatable in Efm. apply andb_prop in Efm. destruct Efm as [Hnc _].
           unfold is_comment_b in Hnc. rewrite <- (existsb_map_bt is_comment_node), (good_shape _ _ Hga) in Hnc.
-          destruct (existsb is_comment_node (children (bt a))); [discriminate|]. rewrite Bool.orb_false_r in Hte. exact Hte. }
+          destruct (existsb is_comment_node (children (bt a))); [discriminate|]. rewrite Bool.orb_false_r in Hte.
+          (* formatable: no spread argument either *)
+          pose proof (formatable_no_spread a Efm') as Hns.
+          rewrite <- (good_shape _ _ Hga), <- skip_until_map, <- take_until_map, <- (filter_map_bt is_arg), existsb_map_bt in Hte.
+          unfold bk in Hns. rewrite Hns, Bool.orb_false_r in Hte. rewrite (good_shape _ _ Hga) in Hte. exact Hte. }
         eapply post_bind; [apply (sgood_call a _ Hga Hsa Hfit)|].
         intros da Hda. apply post_ret. apply good_append; assumption.
       - destruct (is_math_mode _); [intros n d n' H; discriminate H|].
